@@ -288,7 +288,7 @@ class Gen:
             kind = ('KVar', Z(mn), optZ(mx), None if al is None else Some([Z(a) for a in al]))
         opt = r.random() < self.pf['p_opt']
         # release dates and due dates overlap (a due date may lie before another task's release date)
-        rel = r.choice([None, None, None, 0, 2, 5, 6, 9])
+        rel = r.choice([None, None, None, 0, 2, 5, 6, 9, -2])     # a negative release date is legal (and vacuous)
         due = r.choice(self.pf.get('dues', [None, None, None, None, 0, 3, 6, 9, 15, 25]))
         dl = r.random() < 0.5
         work = r.choice([0, 0, 0, 0, 2, 4])
